@@ -36,12 +36,27 @@ Definition is_in_kw (t : tok) : bool :=
   is (ty t) TokenIdent && zlist_eqb (bytes t) [105; 110].
 
 (* spaceAfterToken: reads only types (and the subject's bytes for "in") *)
+(* identContinuesNumber (fix 7415f41): an identifier the scanner would take as the exponent of a
+   number literal if it directly followed "<number>." : e or E, an optional '-', then a digit *)
+Definition ident_continues_number (t : tok) : bool :=
+  is (ty t) TokenIdent &&
+  match bytes t with
+  | c :: r =>
+      ((c =? 101) || (c =? 69)) &&
+      match r with
+      | 45 :: d :: _ => (48 <=? d) && (d <=? 57)        (* '-' is valid inside an identifier (fix f59fd2e) *)
+      | d :: _ => (48 <=? d) && (d <=? 57)
+      | [] => false
+      end
+  | [] => false
+  end.
+
 Definition space_after (subject before after : tok) : bool :=
   let s := ty subject in let a := ty after in let b := ty before in
   if is a TokenNewline || is a TokenNil then false
   else if is s TokenIdent && is a TokenOParen then false
   else if (is s TokenIdent && is a TokenDoubleColon) || (is s TokenDoubleColon && is a TokenIdent) then false
-  else if is s TokenDot && is b TokenNumberLit && is a TokenNumberLit then true
+  else if is s TokenDot && is b TokenNumberLit && (is a TokenNumberLit || ident_continues_number after) then true
   else if is s TokenDot || is a TokenDot then false
   else if is a TokenComma || is a TokenEllipsis then false
   else if is s TokenComma then true
